@@ -10,18 +10,26 @@ delegation (DESIGN.md §12.1)
   whole (`compile_delegate`): always fine — the context only ever consumes its first result;
 * in a hard context a `Delegate` instruction must stand for a piece all of whose results are one and
   the same state: a constant-size piece *without capture groups* (a class, a case-insensitive
-  literal, an easy prefix / suffix of a concatenation), or a *linear* piece (no alternation, no
-  variable repeat: at most one result, capture groups allowed). Taking the first result then loses
-  nothing. Ambiguous pieces with groups there (`(a|b)` in front of a hard item) would need a
-  non-interference argument and stay outside the proved stage;
+  literal, an easy prefix / suffix of a concatenation), or a *linear* piece (`linearE`: no variable
+  repeat; an alternation only when it has no capture groups and all its alternatives have one and the
+  same constant size, `(a|b)`, `(foo|bar)`; capture groups allowed around and beside it). Taking the
+  first result then loses nothing. An alternation whose alternatives write different groups
+  (`(?:x(a)|y(b))` in front of a hard item) stays outside: telling the alternatives apart by their
+  first characters is not sound, because the character comparison `Ctx.ceq` is a free table — with a
+  permissive one both alternatives match, the `Delegate` keeps the first and the reference semantics
+  may need the second (negative example in Proofs/C01d.lean);
 * everything else as in `s2ok`.
 -/
 namespace Fancy
 
 mutual
-/-- "linear": no choice anywhere — literals, classes, `.`, assertions, groups, concatenations and
-    exact-count repeats of such. A linear expression has at most one result from any state, so its
-    first result stands for all of them even when it contains capture groups. -/
+/-- "linear": no choice that can be observed — literals, classes, `.`, assertions, groups,
+    concatenations and exact-count repeats of such, and alternations without capture groups whose
+    alternatives all have the same constant size (the analyzer's `constSize`). All results of a
+    linear expression from one state are one and the same state (`linear_same`, Lemmas/Linear.lean:
+    at most one result without alternations; with them possibly several copies of the state
+    `{st with ix := st.ix + size}`), so its first result stands for all of them even when it contains
+    capture groups. -/
 def linearE : Expr → Bool
   | .empty => true
   | .any _ => true
@@ -29,6 +37,7 @@ def linearE : Expr → Bool
   | .literal _ _ => true
   | .delegate _ _ _ => true
   | .concat es => linearAll es
+  | .alt es => linearAll es && groupCountList es == 0 && constSize (.alt es)
   | .group _ e => linearE e
   | .repeat e lo hi _ => linearE e && hi == some lo
   | _ => false
